@@ -74,6 +74,9 @@ pub enum BOp {
     Write(Payload),
     /// write_payloads with a batch
     Batch(Vec<Payload>),
+    /// write_payloads with a batch handed over as a lazy iterator (style: 0 = filter,
+    /// 1 = from_fn, 2 = chain of two halves, 3 = flat_map) whose size_hint lower bound is 0
+    BatchLazy(Vec<Payload>, u8),
     /// write_tlv(kind, value)
     WriteTlv(u8, Fill),
 }
@@ -125,6 +128,8 @@ pub enum Payload {
     TlvTyped(u8, Fill),
     /// a TypeLengthValues section (raw bytes)
     Section(Fill),
+    /// a TypeLengthValues section whose iterator was advanced by `k` next() calls before it is written
+    SectionAdvanced(u8, Fill),
     /// a bare Type (index into the Type table)
     Type(u8),
 }
@@ -383,6 +388,7 @@ fn payload_to_json(p: &Payload) -> Value {
         Payload::TlvTuple(k, f) => json!({"t":"tlv_tuple","k":k,"fill":fill_to_json(f)}),
         Payload::TlvTyped(k, f) => json!({"t":"tlv_typed","k":k,"fill":fill_to_json(f)}),
         Payload::Section(f) => json!({"t":"section","fill":fill_to_json(f)}),
+        Payload::SectionAdvanced(k, f) => json!({"t":"section_advanced","k":k,"fill":fill_to_json(f)}),
         Payload::Type(k) => json!({"t":"type","k":k}),
     }
 }
@@ -425,6 +431,7 @@ fn payload_from_json(v: &Value) -> Result<Payload, String> {
         "tlv_tuple" => Payload::TlvTuple(k()?, f()?),
         "tlv_typed" => Payload::TlvTyped(k()?, f()?),
         "section" => Payload::Section(f()?),
+        "section_advanced" => Payload::SectionAdvanced(k()?, f()?),
         "type" => Payload::Type(k()?),
         _ => return Err(format!("bad payload type {}", t)),
     })
@@ -437,6 +444,9 @@ fn bop_to_json(op: &BOp) -> Value {
         BOp::Write(p) => json!({"op":"write_payload","payload":payload_to_json(p)}),
         BOp::Batch(ps) => {
             json!({"op":"write_payloads","payloads":ps.iter().map(payload_to_json).collect::<Vec<_>>()})
+        }
+        BOp::BatchLazy(ps, style) => {
+            json!({"op":"write_payloads_lazy","style":style,"payloads":ps.iter().map(payload_to_json).collect::<Vec<_>>()})
         }
         BOp::WriteTlv(k, f) => json!({"op":"write_tlv","k":k,"fill":fill_to_json(f)}),
     }
@@ -460,6 +470,15 @@ fn bop_from_json(v: &Value) -> Result<BOp, String> {
                 .iter()
                 .map(payload_from_json)
                 .collect::<Result<Vec<_>, _>>()?,
+        ),
+        "write_payloads_lazy" => BOp::BatchLazy(
+            v.get("payloads")
+                .and_then(|x| x.as_array())
+                .ok_or("op.payloads")?
+                .iter()
+                .map(payload_from_json)
+                .collect::<Result<Vec<_>, _>>()?,
+            v.get("style").and_then(|x| x.as_u64()).unwrap_or(0) as u8,
         ),
         "write_tlv" => BOp::WriteTlv(
             v.get("k").and_then(|x| x.as_u64()).ok_or("op.k")? as u8,
